@@ -18,7 +18,7 @@ import numpy as np
 from harness import common
 from harness.scripted import enumerate_branches
 
-MODULES = ['CirqVerif.Props.C12', 'CirqVerif.Props.C12Terminal']
+MODULES = ['CirqVerif.Props.C12', 'CirqVerif.Props.C12Terminal', 'CirqVerif.Props.C12TerminalLoop']
 NQ = 3
 
 
